@@ -86,3 +86,38 @@ def fresh_object_local(fn: ast.FunctionDef) -> str | None:
                 cands[tg.id] = cands.get(tg.id, 0) + 1
     one = [k for k, c in cands.items() if c == 1 and stores.get(k) == 1]
     return one[0] if len(one) == 1 else None
+
+
+def positional_call(repo: Repo, e: ast.expr, modname: str) -> ast.expr:
+    """Constructor calls of dataclasses of module ``modname`` spelled with keywords are rewritten to the positional spelling
+    (init fields in declaration order); anything else is returned unchanged.  Applied recursively to the arguments."""
+    import copy
+
+    class T(ast.NodeTransformer):
+        def visit_Call(self, node: ast.Call) -> ast.AST:
+            self.generic_visit(node)
+            name = dotted(node.func)
+            if name is None or not node.keywords or any(k.arg is None for k in node.keywords) or any(isinstance(a, ast.Starred) for a in node.args):
+                return node
+            try:
+                c = repo.cls(modname, name.split(".")[-1])
+            except Exception:
+                return node
+            fields = [f.name for f in all_fields(repo, c).values() if f.init]
+            slots: list[ast.expr | None] = [None] * len(fields)
+            if len(node.args) > len(fields):
+                return node
+            for i, a in enumerate(node.args):
+                slots[i] = a
+            for k in node.keywords:
+                if k.arg not in fields or slots[fields.index(k.arg)] is not None:
+                    return node
+                slots[fields.index(k.arg)] = k.value
+            # trailing omitted fields (defaults) are fine; a hole in the middle is not expressible positionally
+            while slots and slots[-1] is None:
+                slots.pop()
+            if any(x is None for x in slots):
+                return node
+            return ast.copy_location(ast.Call(func=node.func, args=list(slots), keywords=[]), node)  # type: ignore[arg-type]
+
+    return ast.fix_missing_locations(T().visit(copy.deepcopy(e)))
